@@ -642,7 +642,9 @@ def rule_gimbal(repo, tier):
 
     def strip(e):
         while True:
-            if isinstance(e, ast.Call) and isinstance(e.func, ast.Attribute) and e.func.attr in ('abs', 'clamp', 'clip', 'clone', 'detach') :
+            if isinstance(e, ast.Call) and (dotted(e.func) or '').startswith('torch.') and (dotted(e.func) or '').split('.')[-1] in ('abs', 'clamp', 'clip') and e.args:
+                e = e.args[0]
+            elif isinstance(e, ast.Call) and isinstance(e.func, ast.Attribute) and e.func.attr in ('abs', 'clamp', 'clip', 'clone', 'detach') :
                 e = e.func.value
             elif isinstance(e, ast.Call) and (dotted(e.func) or '').split('.')[-1] in ('abs', 'clamp', 'clip') and e.args:
                 e = e.args[0]
@@ -1020,7 +1022,7 @@ def rules(repo, tier):
     from ..callsig import rule_callsig
     from ..docsig import rule_docsig
     from ..axisdefault import rule_axisdefault
-    return list(_rules_core(repo, tier)) + [rule_shape(repo), rule_memo(repo, 'C11.MEMO', 'history independence: nothing computed from the contents of a tensor argument is kept '
+    return list(_rules_core(repo, tier)) + [rule_shape(repo), __import__('sa.mode', fromlist=['x']).rule_guardset(repo, 'C11.GUARDSL', ['pypose.lietensor.lietensor']), rule_memo(repo, 'C11.MEMO', 'history independence: nothing computed from the contents of a tensor argument is kept '
                                                       'under the identity, address or version of that tensor, in module-level storage, or published from a generator '
                                                       'before it is complete - a later call with the same object and other contents must not be answered from it',
                                                       ['pypose.lietensor.convert'], floor=3),
